@@ -9,23 +9,33 @@ LEAN_TARGETS = ['NdnProofs.Props.C13']
 THEOREMS = [
     'Ndn.C13.sanity_iff_documented', 'Ndn.C13.modelError_iff_not_sane', 'Ndn.C13.accepted_sane',
     'Ndn.C13.match_terminates', 'Ndn.C13.match_stable', 'Ndn.C13.check_terminates',
-    'Ndn.C13.match_no_exception', 'Ndn.C13.sign_cycle_rejected', 'Ndn.C13.compile_sane_partial',
+    'Ndn.C13.match_no_exception', 'Ndn.C13.sign_cycle_rejected',
+    'Ndn.C13.compile_rejects_bad_reference', 'Ndn.C13.compile_rejects_reference_cycle', 'Ndn.C13.compile_rejects_bad_constraint',
+    'Ndn.C13.compile_structure_sane', 'Ndn.C13.compile_accepted_iff', 'Ndn.C13.compile_sane',
+    'Ndn.C13.compile_sane_partial',
 ]
 PARTIAL = {
     'Ndn.C13.compile_sane_partial':
-        'the compiler passes (_sort_rule_references, _gen_pattern_numbers, _replicate_rules, _generate_node, '
-        '_fix_signing_references) are not modelled in Lean, so "static error => SemanticError" and "error-free schema '
-        '=> accepted model" are not theorems; they are checked on every run by the schema-level oracle (injected errors '
-        'of each kind at every position). Proved: the loader accepts a model iff it obeys the documented rules and '
-        'top_order finds no signing loop; a signing cycle among reachable nodes is refused (sign_cycle_rejected); the converse (acyclic => top_order accepts) is modelled '
-        'and compared with the implementation but not proved.',
+        'the compiler passes (_sort_rule_references/top_order, _gen_pattern_numbers, _replicate_rules/_fresh_temp_tags, '
+        '_generate_node/pattern_movement, _fix_signing_references) ARE modelled in Lean (Ndn.Lvs.compile) and tied to compile_lvs on '
+        'every run by comparing node pools and verdicts on every generated / error-injected schema. Proved about the compiler model: '
+        'a reference to an undefined or temporary rule, cyclic rule references, a constraint on / option or argument naming a pattern '
+        'written nowhere, a constraint on a temporary pattern the rule does not write, and a temporary pattern used as constraint value '
+        'each give SemanticError (compile_rejects_*); every model emitted for an AST the parser can produce is structurally sane '
+        '(never LvsModelError) and is accepted by the loader iff its reachable nodes do not sign each other in a cycle, else '
+        'SemanticError (compile_structure_sane, compile_accepted_iff, compile_sane; this includes the converse of sign_cycle_rejected: '
+        'acyclic => top_order accepts). NOT proved, still oracle/correspondence only: an undefined signer is refused (pass 5); a schema '
+        'without any static error does compile (no pass raises); the node-level signing cycle read back in terms of the source rules '
+        '(node merging can make a name pattern its own signer although the rule-level graph is acyclic).',
 }
 TRUSTED = [
     'C13: the binary model enters the Lean model after LvsModel.parse (the TLV codec is C08); a model whose StartId or '
     'NamedPatternCnt is absent is outside the Lean model (Python raises TypeError) and only the oracle looks at it',
     'C13: Python\'s recursion limit in _sanity_check.dfs is not modelled (the Lean dfs has fuel nodes+1, proved sufficient '
     'for every sane model)',
-    'C13: lark (text -> AST) and the pretty-printer of the schema generator',
+    'C13: lark (text -> AST) and the pretty-printer of the schema generator; the Lean compiler model receives the AST the '
+    'generator pretty-prints; Schema.WF (literals are non-empty encoded components, user functions have a name) is what the '
+    'grammar guarantees and is a hypothesis of the compile_* sanity theorems',
 ]
 RULE = ('two streams. (a) schemas: generated well-formed schemas (references incl. the same rule twice, redefinitions, '
         'temporary rules/patterns, multi-set constraints, user functions, signing DAGs) and the same schemas with ONE static '
@@ -35,7 +45,9 @@ RULE = ('two streams. (a) schemas: generated well-formed schemas (references inc
         'binary model (version, start id, pattern count, node id, parent incl. root and root children, edge destination, '
         'edge value/tag, dropped edges/constraints/options/nodes, option shape, user-function id, signer lists, swapped '
         'nodes), re-encoded with the real encoder and loaded with Checker.load, then step-capped match/check on names. '
-        'non-trivial = an injected error, or a corrupted model; distinct = distinct cases')
+        'non-trivial = an injected error, or a corrupted model; distinct = distinct cases. '
+        'Model side of stream (a): schema AST -> Lean compiler model -> Lean loader model; compared with the real compile_lvs / Checker: '
+        'SemanticError or node pool (+ symbol table), and the loader verdict')
 
 ERR_KINDS = ['undef-rule-ref', 'temp-rule-ref', 'ref-cycle', 'sign-cycle', 'undef-signer', 'temp-signer',
              'cons-unknown-pat', 'cons-unknown-temp', 'opt-unknown-pat', 'opt-temp-pat']
@@ -322,6 +334,7 @@ def run_impl(case):
             return res
         res['compile'] = 'ok'
         res['token'] = L.enc_model(model)
+        res['symbols'] = L.enc_symbols(model)
         try:
             ck = Checker(model, fns)
             res['checker'] = 'ok'
@@ -364,11 +377,12 @@ def run_impl(case):
 
 # ------------------------------------------------------------------------------------------ model
 def model_line(case, impl):
+    if case['kind'] == 'schema':
+        # the Lean side starts from the schema AST: compiler model, then the loader model on its output
+        return 'C13 csanity ' + L.enc_schema(case['schema'])
     tok = impl.get('token')
     if tok is None:
         return None
-    if case['kind'] == 'schema':
-        return 'C13 sanity ' + tok
     names = [L.name_bytes(nm) for nm in case['names']]
     return 'C13 full %s %s %s' % (tok, L.enc_env(case.get('fns', L.FN_NAMES)), '/'.join(L.enc_name(n) for n in names))
 
@@ -385,8 +399,12 @@ def _canon_model_match(r):
 def model_obs(answer, case, impl):
     parts = answer.split(' ')
     if case['kind'] == 'schema':
-        assert parts[0] in ('ok', 'err'), answer[:100]
-        return 'ok' if len(parts) == 1 else parts[1]
+        if parts[0] == 'cerr':
+            return {'compile': parts[1]}
+        assert parts[0] == 'ok' and len(parts) == 4, answer[:100]
+        exact = parts[1] == impl['token'] and parts[2] == impl['symbols']
+        impl['_exact'] = exact              # pools equal only up to numbering are compared in canonical form
+        return {'compile': 'ok', 'node_pool': parts[1] if exact else L.canon_pool(parts[1], parts[2]), 'checker': parts[3]}
     assert answer.startswith('ok'), answer[:100]
     if parts[1] != 'accepted':
         return {'load': parts[1]}
@@ -397,7 +415,11 @@ def model_obs(answer, case, impl):
 
 def impl_obs(impl):
     if 'compile' in impl:
-        return impl.get('checker', impl['compile'])
+        if impl['compile'] != 'ok':
+            return {'compile': impl['compile']}
+        exact = impl.get('_exact', True)
+        return {'compile': 'ok', 'node_pool': impl['token'] if exact else L.canon_pool(impl['token'], impl['symbols']),
+                'checker': impl.get('checker')}
     if impl['load'] != 'ok':
         return {'load': impl['load']}
     return {'load': 'ok', 'matches': impl['matches'], 'checks': impl['checks']}
@@ -471,10 +493,13 @@ LEVEL_TEXT = ('Lean 4 theorems over a hand-written model of Checker._sanity_chec
               'check succeeds iff the six documented sanity rules hold of the reachable part (both directions; the (<=) direction '
               'proves that "parent = source" makes the reachable part a tree, so the dfs ends within its fuel); on every accepted '
               'model the iterative back-tracking search ends within an explicit bound stepBound(maxPE, |name|) for every name, '
-              'context and user-function dictionary; check only runs such searches. Tied to the code on every run by differential '
-              'execution of the compiled model against the real Checker.load/match/check on single-field corruptions of compiled '
-              'models, plus the property oracle (documented rules, step cap) on the implementation.')
-LEVEL_NOTE = ('Proof is about the model; model=code is sampled. The schema-level half (static errors => SemanticError, error-free '
-              'schema => accepted model) is oracle-only: the compiler is not modelled in Lean.')
-TECHNIQUE = 'Lean 4 proof (simulation of the iterative search by structural recursion; dfs soundness/completeness with a pigeonhole argument) + model/implementation correspondence check + schema-level oracle'
+              'context and user-function dictionary; check only runs such searches. The compiler (compiler.py, all passes as written) is '
+              'modelled as well: static errors of the listed kinds give SemanticError, and every emitted model is structurally sane and '
+              'accepted iff there is no signing cycle among its nodes. Tied to the code on every run by differential '
+              'execution: schema ASTs (well-formed and with one injected error) through the Lean compiler + loader vs compile_lvs + Checker '
+              '(node pools compared), the compiled model against the real Checker.load/match/check on single-field corruptions of '
+              'compiled models, plus the property oracle (documented rules, step cap, static errors) on the implementation.')
+LEVEL_NOTE = ('Proof is about the model; model=code is sampled. Of the schema-level half, "undefined signer => SemanticError" and '
+              '"error-free schema => compiles" are not proved (oracle + correspondence only); see compile_sane_partial.')
+TECHNIQUE = 'Lean 4 proof (simulation of the iterative search by structural recursion; dfs soundness/completeness with a pigeonhole argument; invariants of the compiler passes; Kahn both directions) + model/implementation correspondence check (compiler, loader, matcher) + schema-level oracle'
 DESIGN_REF = 'DESIGN.md section 7, C13; findings F10, F16'
